@@ -279,6 +279,22 @@ Proof.
   destruct (stream =? REPROC_STREAM_OUT); [apply post_bind_any; intros n; apply post_ret; reflexivity|].
   destruct (stream =? REPROC_STREAM_ERR); [apply post_bind_any; intros n; apply post_ret; reflexivity|apply post_ret; reflexivity].
 Qed.
+Lemma post_drain_loop_blk fuel : forall p s, post (drain_loop fuel p s) (fun res => h_blk (snd (fst res)) = h_blk p).
+Proof.
+  induction fuel as [|f IH]; intros p s; cbn [drain_loop]; [intros w a w' E; discriminate|].
+  apply post_bind_any. intros [r1 evs]. destruct (r1 <? 0); [apply post_ret; reflexivity|].
+  cbv zeta. destruct (has_bit _ REPROC_EVENT_DEADLINE); [apply post_ret; reflexivity|].
+  eapply post_bind; [apply post_reproc_read_blk|]. intros [[r2 rs] p2] B2. cbn [snd] in B2.
+  destruct ((r2 <? 0) && negb (r2 =? REPROC_EPIPE)); [apply post_ret; exact B2|].
+  cbv zeta. destruct (sink_call _ _ _ _ s) as [v s2].
+  destruct (negb (v =? 0)); [apply post_ret; exact B2|].
+  eapply post_weaken; [|apply IH]. intros res H. cbn beta in *. congruence.
+Qed.
+Lemma post_reproc_drain_blk fuel p s : post (reproc_drain fuel p s) (fun res => h_blk (snd (fst res)) = h_blk p).
+Proof.
+  unfold reproc_drain. destruct (sink_call 0 _ _ _ s) as [v s1]. destruct (negb (v =? 0)); [apply post_ret; reflexivity|].
+  destruct (sink_call 1 _ _ _ s1) as [v2 s2]. destruct (negb (v2 =? 0)); [apply post_ret; reflexivity|]. apply post_drain_loop_blk.
+Qed.
 Lemma post_run_hop_blk ck p op : post (run_hop ck p op) (fun p' => h_blk p' = h_blk p).
 Proof.
   destruct op; cbn [run_hop].
@@ -291,6 +307,31 @@ Proof.
   - apply post_bind_any. intros _. apply post_ret. reflexivity.
   - apply post_bind_any. intros _. apply post_ret. reflexivity.
   - eapply post_bind; [apply post_reproc_stop_blk|]. intros [r p1] H. apply post_ret. exact H.
+  - eapply post_bind; [apply post_reproc_drain_blk|]. intros [[r p1] s1] H. apply post_ret. exact H.
+Qed.
+
+Lemma O_drain_loop L own fuel : forall p s w r p' s' w', hq L own w -> drain_loop fuel p s w = Ret (r, p', s') w' -> hq L own w' /\ h_blk p' = h_blk p.
+Proof.
+  induction fuel as [|f IH]; intros p s w r p' s' w' H E; cbn [drain_loop] in E; [discriminate|].
+  apply bind_inv in E as ([r1 evs] & w1 & E1 & E). cbv beta iota in E.
+  pose proof (O_reproc_poll _ _ _ _ _ _ _ H E1) as H1.
+  destruct (r1 <? 0). { apply ret_inv in E as [E ->]. injection E as _ -> _. auto. }
+  cbv zeta in E. destruct (has_bit _ REPROC_EVENT_DEADLINE). { apply ret_inv in E as [E ->]. injection E as _ -> _. auto. }
+  apply bind_inv in E as ([[r2 rs] p2] & w2 & E2 & E). cbv beta iota in E.
+  pose proof (H_neutral _ _ _ _ _ _ (hk_reproc_read false _ _ _ _) H1 E2) as H2.
+  pose proof (post_reproc_read_blk _ _ _ _ _ _ _ E2) as B2. cbn [snd] in B2.
+  destruct ((r2 <? 0) && negb (r2 =? REPROC_EPIPE)). { apply ret_inv in E as [E ->]. injection E as _ -> _. auto. }
+  cbv zeta in E. destruct (sink_call _ _ _ _ s) as [v s2].
+  destruct (negb (v =? 0)). { apply ret_inv in E as [E ->]. injection E as _ -> _. auto. }
+  destruct (IH _ _ _ _ _ _ _ H2 E) as [A B]. split; [exact A|congruence].
+Qed.
+Lemma O_reproc_drain L own fuel p s w r p' s' w' : hq L own w -> reproc_drain fuel p s w = Ret (r, p', s') w' -> hq L own w' /\ h_blk p' = h_blk p.
+Proof.
+  intros H E. unfold reproc_drain in E. destruct (sink_call 0 _ _ _ s) as [v s1].
+  destruct (negb (v =? 0)). { apply ret_inv in E as [E ->]. injection E as _ -> _. auto. }
+  destruct (sink_call 1 _ _ _ s1) as [v2 s2].
+  destruct (negb (v2 =? 0)). { apply ret_inv in E as [E ->]. injection E as _ -> _. auto. }
+  exact (O_drain_loop _ _ _ _ _ _ _ _ _ _ H E).
 Qed.
 
 (* ---- histories ---- *)
@@ -310,6 +351,7 @@ Proof.
   - apply bind_inv in E as (x & w1 & E1 & E). apply ret_inv in E as [_ ->]. exact (H_neutral _ _ _ _ _ _ (hk_reproc_terminate false _) Hq E1).
   - apply bind_inv in E as (x & w1 & E1 & E). apply ret_inv in E as [_ ->]. exact (H_neutral _ _ _ _ _ _ (hk_reproc_kill false _) Hq E1).
   - apply bind_inv in E as ([r p1] & w1 & E1 & E). apply ret_inv in E as [_ ->]. exact (O_reproc_stop _ _ _ _ _ _ _ Hq E1).
+  - apply bind_inv in E as ([[r p1] s1] & w1 & E1 & E). apply ret_inv in E as [_ ->]. exact (proj1 (O_reproc_drain _ _ _ _ _ _ _ _ _ _ Hq E1)).
 Qed.
 Lemma O_run_hop L T c ck p op w p' w' : HN T c p w -> hq L [] w -> (forall q, kp c (ck q)) -> (forall q, hk true (ck q)) ->
   run_hop ck p op w = Ret p' w' -> hq L [] w'.
